@@ -156,7 +156,7 @@ namespace c16
                 static const char *rs[] = {"uniform", "near", "gauss"};
                 op["op"] = "raw";
                 op["how"] = g.pick(rs);
-                op["d"] = g.pick(std::vector<double>{0.01, 0.1, 1.0});
+                op["d"] = g.pick(std::vector<double>{0.01, 0.1, 1.0, 1.0, 30.0, 1e4});  // far beyond the manifold: every projection attempt fails
             }
             else if (k < 6)
             {
@@ -333,6 +333,22 @@ namespace c16
                 // counted by cause (on-manifold samples are what the valid-state sampler, judged below, is for).
                 bool compact = man != "plane";
                 std::string cause = pf > 0 ? "injected-projection-failure" : (natural > 0 ? "projection-reported-failure" : (bursts > 0 ? "extreme-draw" : (bnd == "cut" || !compact ? "bounds-cut-manifold" : "")));
+                // Sharper for the atlas / tangent-bundle samplers around a given state: they retry a fixed number of times
+                // and then return the state they were given, so with an on-manifold centre the result is on the manifold
+                // whatever failed on the way - unless the final clamp to the bounds moved it (result touches a bound).
+                bool strictlyInside = true;
+                {
+                    const double *x = cur->as<ob::ConstrainedStateSpace::StateType>()->getState()->as<ob::RealVectorStateSpace::StateType>()->values;
+                    for (unsigned i = 0; i < n; i++)
+                        strictlyInside = strictlyInside && x[i] > lo + 1e-9 && x[i] < hi - 1e-9;
+                }
+                bool fallbackGuaranteed = (spk == "atlas" || spk == "tangent") && how != "uniform" && bursts == 0 && strictlyInside &&
+                                          con->residual(from) <= tol;
+                if (fallbackGuaranteed && !cause.empty())
+                {
+                    res.probes["raw-samples-judged-despite-projection-failures(retry-then-fallback)"]++;
+                    cause.clear();
+                }
                 if (!cause.empty())
                 {
                     rawUnderFault++;
